@@ -6,13 +6,16 @@
   `head.index / head.block` (consumer side), and the block cache `first`, `last_head` (producer side; the
   producer reads `head.block` racily in `alloc_node`).
 
-    push      pBlk → pIdx(+slot write) [block full: alloc_node → pLink → pSetBlk] → pPub → pRet
+    push      pBlk → pIdx → pWr (slot write) [block full: alloc_node → pLink → pSetBlk] → pPub → pRet
     alloc_node  aFirst → aLast → (first ≠ last_head: aNext → aSetFirst
                                  | aHead → aSetLast → (first ≠ head.block: aNext → aSetFirst | aAlloc))
-    pop       oIdx → oTail → (None | oBlk(+slot read) [block end: oNext → oSetBlk] → oStore)
-    peek      kIdx → kTail → (None | kBlk(+slot read))
+    pop       oIdx → oTail → (None | oBlk → oRd (slot read) [block end: oNext → oSetBlk] → oStore)
+    peek      kIdx → kTail → (None | kBlk → kRd (slot read))
     len       lHead → lTail
-    bulk_pop  bIdx → bTail → (empty | bBlk(+copy) [block end: bNext → bSetBlk] → bStore)
+    bulk_pop  bIdx → bTail → (empty | bBlk → bRd* (one slot read per step) [block end: bNext → bSetBlk] → bStore)
+  The non-atomic slot accesses are steps of their own: the hook sits directly in front of the access inside
+  `BlockNode::set / get / peek`, so the event moves with the access (a copy that runs after the block hand-over
+  diverges from the model).
     Drop      bulk_pop loop (d = true) → dHead → dTail → dFirst → (dNext → dFree)* → dFreeH
     new       nAlloc → nRet
 
@@ -43,6 +46,7 @@ inductive PPc
   | idle
   | pBlk (v : Nat)
   | pIdx (v : Nat) (tb : Bid)
+  | pWr (v : Nat) (tb : Bid) (pi : Nat)        -- the slot write of `BlockNode::set`
   | aFirst (l : PL)
   | aLast (l : PL) (f : Bid)
   | aNext (l : PL) (f : Bid)
@@ -59,11 +63,12 @@ inductive PPc
 inductive CPc
   | idle
   | nAlloc | nRet
-  | oIdx | oTail (hi : Nat) | oBlk (hi : Nat) | oNext (hb : Bid) (hi v : Nat) | oSetBlk (nh : Bid) (hi v : Nat)
+  | oIdx | oTail (hi : Nat) | oBlk (hi : Nat) | oRd (hb : Bid) (hi : Nat) | oNext (hb : Bid) (hi v : Nat) | oSetBlk (nh : Bid) (hi v : Nat)
   | oStore (hi v : Nat)
-  | kIdx | kTail (hi : Nat) | kBlk (hi : Nat)
+  | kIdx | kTail (hi : Nat) | kBlk (hi : Nat) | kRd (hb : Bid) (hi : Nat)
   | lHead (e : Bool) | lTail (e : Bool) (hi : Nat)
   | bIdx (d : Bool) | bTail (d : Bool) (hi : Nat) | bBlk (d : Bool) (hi e : Nat)
+  | bRd (d : Bool) (hb : Bid) (ci e : Nat) (acc : List Nat)      -- `copy_to_bulk`: the read of logical slot ci
   | bNext (d : Bool) (hb : Bid) (e : Nat) (vals : List Nat) | bSetBlk (d : Bool) (nh : Bid) (e : Nat) (vals : List Nat)
   | bStore (d : Bool) (e : Nat) (vals : List Nat)
   | dHead | dTail (hb : Bid) | dFirst (hb : Bid) | dNext (f tb : Bid) | dFree (f nx tb : Bid) | dFreeH (hb : Bid)
@@ -120,9 +125,8 @@ def pstepC (s : Sh) : PPc → Env → Option (Sh × PPc × AAct)
   | .idle, .push v => if s.alive then some (s, .pBlk v, some (.push v)) else none
   | .idle, _ => none
   | .pBlk v, _ => some (s, .pIdx v s.tailBlk, none)
-  | .pIdx v tb, _ =>
-      -- `tail.index.unsync_load()`, then the slot write `tail.set(push_index, v)`
-      let pi := s.tailIdx
+  | .pIdx v tb, _ => some (s, .pWr v tb s.tailIdx, none)
+  | .pWr v tb pi, _ =>
       let s := touch s tb
       let s := { s with val := upd2 s.val tb (pi % s.B) v }
       some (s, if (pi + 1) % s.B = 0 then .aFirst ⟨v, tb, pi⟩ else .pPub v pi, some .go)
@@ -168,8 +172,8 @@ def cstepC (s : Sh) : CPc → Env → Option (Sh × CPc × AAct)
   -- pop
   | .oIdx, _ => some (s, .oTail s.headIdx, none)
   | .oTail hi, _ => if hi = s.tailIdx then some (s, .ret (.pop none), some .go) else some (s, .oBlk hi, some .go)
-  | .oBlk hi, _ =>
-      let hb := s.headBlk
+  | .oBlk hi, _ => some (s, .oRd s.headBlk hi, none)
+  | .oRd hb hi, _ =>
       let s := touch s hb
       let v := s.val hb (hi % s.B)
       some (s, if (hi + 1) % s.B = 0 then .oNext hb hi v else .oStore hi v, some .go)
@@ -183,7 +187,8 @@ def cstepC (s : Sh) : CPc → Env → Option (Sh × CPc × AAct)
   -- peek
   | .kIdx, _ => some (s, .kTail s.headIdx, none)
   | .kTail hi, _ => if hi = s.tailIdx then some (s, .ret (.peek none), some .go) else some (s, .kBlk hi, some .go)
-  | .kBlk hi, _ => let s := touch s s.headBlk; some (s, .ret (.peek (some (s.val s.headBlk (hi % s.B)))), some .go)
+  | .kBlk hi, _ => some (s, .kRd s.headBlk hi, none)
+  | .kRd hb hi, _ => let s := touch s hb; some (s, .ret (.peek (some (s.val hb (hi % s.B)))), some .go)
   -- len / is_empty
   | .lHead e, _ => some (s, .lTail e s.headIdx, none)
   | .lTail e hi, _ => let n := s.tailIdx - hi; some (s, .ret (if e then .empty (n == 0) else .len n), some .go)
@@ -192,11 +197,13 @@ def cstepC (s : Sh) : CPc → Env → Option (Sh × CPc × AAct)
   | .bTail d hi, _ =>
       if hi = s.tailIdx then some (s, if d then .dHead else .ret (.bulk []), some .go)
       else some (s, .bBlk d hi (min s.tailIdx ((hi / s.B + 1) * s.B)), some .go)
-  | .bBlk d hi e, _ =>
-      let hb := s.headBlk
+  | .bBlk d hi e, _ => some (s, .bRd d s.headBlk hi e [], none)
+  | .bRd d hb ci e acc, _ =>
+      -- the level-A action (which takes all the values at once) is attached to the LAST read
       let s := touch s hb
-      let vals := copy s hb hi (e - hi)
-      some (s, if e % s.B = 0 then .bNext d hb e vals else .bStore d e vals, some .go)
+      let acc' := acc ++ [s.val hb (ci % s.B)]
+      if ci + 1 < e then some (s, .bRd d hb (ci + 1) e acc', none)
+      else some (s, if e % s.B = 0 then .bNext d hb e acc' else .bStore d e acc', some .go)
   | .bNext d hb e vals, _ =>
       let s := touch s hb
       match s.next hb with
@@ -219,7 +226,7 @@ def cstepC (s : Sh) : CPc → Env → Option (Sh × CPc × AAct)
 
 def projP : PPc → SpscA.PPc
   | .idle => .idle
-  | .pBlk v | .pIdx v _ => .write v
+  | .pBlk v | .pIdx v _ | .pWr v .. => .write v
   | .aFirst l | .aLast l _ | .aNext l _ | .aSetFirst l .. | .aHead l _ | .aSetLast l .. | .aAlloc l | .pLink l _
   | .pSetBlk l _ => .publish l.v
   | .pPub v _ => .publish v
@@ -228,13 +235,13 @@ def projP : PPc → SpscA.PPc
 def projC : CPc → SpscA.CPc
   | .idle | .nAlloc | .nRet => .idle
   | .oIdx | .oTail _ => .pLoad
-  | .oBlk _ => .pGet
+  | .oBlk _ | .oRd .. => .pGet
   | .oNext _ _ v | .oSetBlk _ _ v | .oStore _ v => .pStore v
   | .kIdx | .kTail _ => .kLoad
-  | .kBlk _ => .kGet
+  | .kBlk _ | .kRd .. => .kGet
   | .lHead e | .lTail e _ => .lLoad e
   | .bIdx d | .bTail d _ => .bLoad d
-  | .bBlk d _ e => .bGet d e
+  | .bBlk d _ e | .bRd d _ _ e _ => .bGet d e
   | .bNext d _ e vals | .bSetBlk d _ e vals | .bStore d e vals => .bStore d e vals
   | .dHead | .dTail _ | .dFirst _ | .dNext .. | .dFree .. | .dFreeH _ => .ret .unit
   | .ret r => .ret r
